@@ -11,14 +11,21 @@ one reporter call, or a lock-protected region without schedule point).
 Close:  if !closed.CAS(false,true) { return nil }        start  → won | returnedNil
         close(done)                                       won    → doneClosedPc
         wg.Wait()                                         doneClosedPc → pass begin   (enabled iff the loop has exited / never existed)
-        reportRegistry()   = pass; Flush                  pass begin → pick [] → [deliver c] → pick [c] … → flush → purgePc
-        registry.purge()                                  purgePc → reporterClose
+        registry.Report / CachedReport  (final pass)      pass begin → pick [] → [deliver c] → pick [c] … → purgePc   (NO flush here)
+        registry.purge()                                  purgePc → flushPc
+        baseReporter.Flush()                              flushPc → reporterClose     (log entry `flush`)
         if io.Closer: return reporter.Close()             reporterClose → returned r
 loop:   for { select { case <-ticker.C: reportLoopRun()   waiting → ticked        (event `tick`)
                        case <-done: return } }            waiting → exited        (event `exit`, needs doneClosed)
         reportLoopRun: if closed.Load() { return }        ticked → waiting | pass begin
-                       reportRegistry()                   pass … → waiting
+                       reportRegistry() = pass; Flush     pass begin → pick … → flush → waiting
 ```
+
+The final pass of `Close` and the periodic pass share `passStep`; the periodic pass ends with `PassPc.flush`
+(`reportRegistry()` = pass, then `Flush`).  `Close` does not flush at the end of its pass: when its range loops are
+over (`passStep` yields the next pc `flush`) the call is about to purge (`afterPass`), the purge drops whatever was
+recorded into a cell after the pass swapped it (never a `pre` token), and only then `Flush` is called (`flushPc`).
+A `Close` call is therefore never at `pass flush` (from that pc — unreachable — the model would flush and purge).
 
 The `select` is nondeterministic: from `waiting` both `tick` and (once `done` is closed) `exit` are
 possible.  A slow reporter call is the scheduler not running that thread for a while (the thread sits
@@ -44,8 +51,8 @@ it is outside this model (see the observation in TallyProofs/Props/C08.lean).
 
 Ghost tokens make "exactly once" literal: every record creates a fresh token, stamped `pre` iff the
 root's closed flag was still false at that moment.  `purge` is one step: it runs after the final pass
-with the loop gone, the only other threads that touch cells then are recorders, whose tokens are not
-`pre` either way.  After the purge the scopes are unregistered and cleared: a record on an old handle
+(and before the final flush) with the loop gone, the only other threads that touch cells then are recorders,
+whose tokens are not `pre` either way.  After the purge the scopes are unregistered and cleared: a record on an old handle
 goes to `dropped` at once (it can never be delivered).
 -/
 namespace Tally.RootClose
@@ -84,8 +91,9 @@ inductive CPc
   | won                     -- CAS succeeded; about to `close(done)`
   | doneClosedPc            -- `done` closed; about to `wg.Wait()`
   | pass (p : PassPc)       -- `wg.Wait()` returned (`pass begin` = "waited"); inside the final report
-  | purgePc                 -- final flush done; about to purge the registry
-  | reporterClose           -- about to close the reporter if it is an `io.Closer`
+  | purgePc                 -- final pass done (its range loops are over, nothing flushed yet); about to purge the registry
+  | flushPc                 -- registry purged; about to call `Flush` on the reporter
+  | reporterClose           -- final flush done; about to close the reporter if it is an `io.Closer`
   | returned (err : Option Nat)   -- the winning call returned `err`
   | returnedNil             -- CAS failed: returned nil
 deriving Repr, DecidableEq
@@ -145,6 +153,13 @@ def passStep (s : State) (c : Nat) : PassPc → Option (State × Option PassPc)
 def purgeAll (s : State) : State :=
   { s with purged := true, dropped := s.cells.flatten ++ s.dropped, cells := s.cells.map fun _ => [] }
 
+/-- where a `Close` call is after a step of its final pass: once the range loops are over (the shared
+`passStep` says "next: flush") it is about to purge — the final flush comes after the purge (`flushPc`) -/
+def afterPass : Option PassPc → CPc
+  | some .flush => .purgePc
+  | some q => .pass q
+  | none => .purgePc
+
 /-- one atomic action; `none` = not enabled -/
 def step (s : State) : Ev → Option State
   | .record c =>
@@ -185,10 +200,10 @@ def step (s : State) : Ev → Option State
     | .doneClosedPc => if s.loop = .exited then some (setC s t (.pass .begin)) else none
     | .pass p =>
       match passStep s choice p with
-      | some (s1, some q) => some (setC s1 t (.pass q))
-      | some (s1, none) => some (setC s1 t .purgePc)
+      | some (s1, oq) => some (setC s1 t (afterPass oq))
       | none => none
-    | .purgePc => some (setC (purgeAll s) t .reporterClose)
+    | .purgePc => some (setC (purgeAll s) t .flushPc)
+    | .flushPc => some { setC s t .reporterClose with log := .flush :: s.log }
     | .reporterClose =>
       if s.closable then
         some { setC s t (.returned s.err) with log := .reporterClose :: s.log, returns := (t, s.err) :: s.returns }
@@ -234,7 +249,7 @@ def CPc.inPass : CPc → Bool
   | _ => false
 /-- inside a `Close` call that has passed the CAS and not yet returned -/
 def CPc.midCall : CPc → Bool
-  | .won | .doneClosedPc | .pass _ | .purgePc | .reporterClose => true
+  | .won | .doneClosedPc | .pass _ | .purgePc | .flushPc | .reporterClose => true
   | _ => false
 
 /-- a printable / comparable snapshot (the closers of calls `0 … n-1`) -/
@@ -257,7 +272,9 @@ def State.view (s : State) (n : Nat) : View :=
 /-! ## the pinned code, kept as a regression witness
 
 `Close` did not wait for the loop goroutine, and every pass ended with `defer r.purgeIfRootClosed()`:
-a pass that finds the root closed when its range loop ends purges the whole registry. -/
+a pass that finds the root closed when its range loop ends purges the whole registry.  The pinned `Close`
+keeps the OLD order: `reportRegistry()` (pass — which purges — then `Flush`: the closer goes through
+`pass flush`), then the reporter's `Close`; it never is at `purgePc` / `flushPc`. -/
 namespace Legacy
 
 def passStep (s : State) (c : Nat) : PassPc → Option (State × Option PassPc)
